@@ -290,6 +290,12 @@ theorem next_visits_each_key_once (h : Nat → Nat) (t : Table) (inv : Inv h t) 
       ∀ k, k ∈ keysOf t.data ↔ abs h t k ≠ vNil :=
   iterNext_all inv.d
 
+/-- the capacity a rehash chooses (generated `rehashSize`) exceeds twice the live count plus two: after a rehash at
+least half of the buckets are empty -/
+theorem rehash_has_room (count : Nat) : 2 * count + 2 < rehashSize count := by
+  unfold rehashSize
+  exact tablen_gt _
+
 /-- non-vacuity: a table with two colliding keys, a tombstone and a rehash behind it satisfies the hypotheses -/
 example : (run (fun _ => 7) (Table.init 0)
     [.put (.key 1) 5, .put (.key 2) 6, .put (.key 3) 7, .remove 2, .put (.key 4) 1, .put (.key 1) 0]).bad = false := by decide
